@@ -1,6 +1,7 @@
 package main
 
 import (
+	"strconv"
 	"bytes"
 	"context"
 	"fmt"
@@ -159,6 +160,8 @@ type solverDef struct {
 	argv func(file string, timeoutS int) []string
 }
 
+const wallFactor = 8
+
 var solvers = []solverDef{
 	{"z3-new", func(f string, t int) []string { return []string{"z3-new", fmt.Sprintf("-T:%d", t), f} }},
 	{"z3", func(f string, t int) []string { return []string{"z3", fmt.Sprintf("-T:%d", t), f} }},
@@ -169,7 +172,10 @@ var solvers = []solverDef{
 
 func runSolver(sd solverDef, ctx context.Context, file string, timeoutS int) SolverResult {
 	t0 := time.Now()
-	argv := sd.argv(file, timeoutS)
+	// the limit is CPU seconds (ulimit -t), so a busy machine does not turn a 2 s proof into a timeout;
+	// the solver's own wall-clock limit is only a backstop at wallFactor times that
+	argv := sd.argv(file, timeoutS*wallFactor)
+	argv = append([]string{"/bin/sh", "-c", fmt.Sprintf("ulimit -t %d; exec \"$@\"", timeoutS), "sh"}, argv...)
 	cmd := exec.CommandContext(ctx, argv[0], argv[1:]...)
 	var out bytes.Buffer
 	cmd.Stdout = &out
@@ -191,7 +197,9 @@ func runSolver(sd solverDef, ctx context.Context, file string, timeoutS int) Sol
 	case ctx.Err() != nil:
 		st = "timeout"
 	default:
-		_ = err
+		if ee, ok := err.(*exec.ExitError); ok && !ee.Exited() {
+			st = "timeout" // killed by the CPU limit
+		}
 	}
 	return SolverResult{Status: st, Solver: sd.name, Time: el, Output: s}
 }
@@ -248,7 +256,7 @@ func firstLines(s string, n int) string {
 }
 
 // batch incremental run on one solver: returns the status per check-sat, in order.
-func runBatch(script string, tmpdir, tag string, perCheckMs int, totalS int) ([]string, float64, string) {
+func runBatch(script string, tmpdir, tag string, perCheckMs int, totalS int) (map[int]string, float64, string) {
 	file := fmt.Sprintf("%s/%s.batch.smt2", tmpdir, tag)
 	os.WriteFile(file, []byte(script), 0644)
 	ctx, cancel := context.WithTimeout(context.Background(), time.Duration(totalS)*time.Second)
@@ -260,13 +268,26 @@ func runBatch(script string, tmpdir, tag string, perCheckMs int, totalS int) ([]
 	cmd.Stderr = &out
 	cmd.Run()
 	el := time.Since(t0).Seconds()
-	var res []string
+	// every check-sat is preceded by (echo "@ob <index>"): a status line counts only when it directly
+	// follows its own tag, so a lost or extra line can never shift a verdict onto another obligation
+	res := map[int]string{}
+	cur := -1
 	for _, l := range strings.Split(out.String(), "\n") {
 		l = strings.TrimSpace(l)
+		if strings.HasPrefix(l, "@ob ") {
+			cur = -1
+			if n, err := strconv.Atoi(strings.TrimPrefix(l, "@ob ")); err == nil {
+				cur = n
+			}
+			continue
+		}
 		switch l {
 		case "sat", "unsat", "unknown", "timeout":
-			res = append(res, l)
+			if cur >= 0 {
+				res[cur] = l
+			}
 		}
+		cur = -1
 	}
 	return res, el, out.String()
 }
